@@ -5,6 +5,7 @@ import (
 	"go/constant"
 	"go/token"
 	"go/types"
+	"os"
 	"sort"
 	"strings"
 
@@ -22,6 +23,7 @@ type callee struct {
 	recvArg  ssa.Value // receiver for invoke-mode calls
 	isInvoke bool
 	label    string // for obligation names
+	siteKey  string // enclosing function + "@" + anchor: a contract for this call site only
 }
 
 func (g *Gen) resolveCallee(c *ssa.CallCommon) callee {
@@ -97,6 +99,11 @@ func (g *Gen) resolveCallee(c *ssa.CallCommon) callee {
 }
 
 func (g *Gen) contractFor(ce callee) *Contract {
+	if ce.siteKey != "" {
+		if c := g.S.Contracts[ce.siteKey]; c != nil {
+			return c
+		}
+	}
 	for _, k := range ce.keys {
 		if c := g.S.Contracts[k]; c != nil {
 			return c
@@ -117,6 +124,10 @@ func (g *Gen) call(in ssa.CallInstruction, val ssa.Value) {
 	ce := g.resolveCallee(c)
 	g.siteOrd[ce.label]++
 	anchor := fmt.Sprintf("%s#%d", ce.label, g.siteOrd[ce.label])
+	if os.Getenv("GOVERIF_ANCHORS") != "" && g.pass == 2 {
+		fmt.Fprintf(os.Stderr, "anchor %s %s (%s)\n", g.key, anchor, g.P.posString(in.Pos()))
+	}
+	ce.siteKey = g.key + "@" + anchor
 	g.atStatements(anchor, "before", in, val, ce)
 	g.applyCall(ce, c, val, in.Pos(), "true")
 	g.atStatements(anchor, "after", in, val, ce)
@@ -259,12 +270,44 @@ func (g *Gen) applyCall(ce callee, c *ssa.CallCommon, val ssa.Value, pos token.P
 			}
 		} else if ce.isInvoke || ce.fn == nil {
 			// unknown target: in-repo implementations may be reached
+			otherwise := guard
+			if ce.isInvoke && g.frames.fb != nil {
+				// devirtualisation by dynamic type: an in-repo implementation with a verified
+				// contract is represented by that contract when the receiver has its type
+				recv := g.v(c.Value)
+				var tests []string
+				for _, m := range g.frames.fb.implsOf(c) {
+					k := g.P.KeyOf[m]
+					mc := g.S.Contracts[k]
+					if k == "" || mc == nil || mc.Assumed {
+						continue
+					}
+					if _, isPtr := m.Signature.Recv().Type().Underlying().(*types.Pointer); !isPtr {
+						continue
+					}
+					test := eq("(dyntype "+recv+")", g.typeID(m.Signature.Recv().Type()))
+					gi := and(guard, test)
+					cei := callee{keys: []string{k}, fn: m, sig: m.Signature, label: k}
+					prei := copyState(g.cur)
+					g.usedCtr[k] = true
+					g.applyContract(mc, cei, c, args, results, prei, pos, gi)
+					g.mergeGuarded(prei, gi)
+					tests = append(tests, test)
+				}
+				if len(tests) > 0 {
+					otherwise = and(guard, not(or(tests...)))
+				}
+			}
 			g.uncontr[ce.label] = true
+			pree := copyState(g.cur)
 			for _, n := range g.frames.dynamicMods(g.P, ce, c) {
 				g.ensureHeapSortByName(n)
 				if _, ok := g.heapSort[n]; ok {
 					g.havocHeap(n)
 				}
+			}
+			if otherwise != guard {
+				g.mergeGuarded(pree, otherwise)
 			}
 		} else {
 			g.uncontr[ce.label] = true
@@ -430,7 +473,7 @@ func (g *Gen) applyContract(ctr *Contract, ce callee, c *ssa.CallCommon, args, r
 	g.callOrd[ctr.Key]++
 	ord := g.callOrd[ctr.Key]
 	// receiver of a method with pointer receiver must not be nil
-	if ce.fn != nil && ce.fn.Signature.Recv() != nil && len(c.Args) > 0 {
+	if ce.fn != nil && ce.fn.Signature.Recv() != nil && len(c.Args) > 0 && !c.IsInvoke() {
 		if _, isPtr := ce.fn.Signature.Recv().Type().Underlying().(*types.Pointer); isPtr {
 			g.nilCheck(g.objRef(c.Args[0]), c.Args[0], pos, "call")
 		}
@@ -439,8 +482,10 @@ func (g *Gen) applyContract(ctr *Contract, ce callee, c *ssa.CallCommon, args, r
 		if cl.Kind != "requires" || !cl.visible(g.prop) {
 			continue
 		}
-		cond := g.transBool(cl.E, preEnv)
-		g.oblige("pre", fmt.Sprintf("%s@%d", ctr.Key, ord), clTag(cl, i), cl.Props, false, implies(guard, cond), pos)
+		for k, cj := range conjuncts(cl.E) {
+			cond := g.transBool(cj, preEnv)
+			g.oblige("pre", fmt.Sprintf("%s@%d", ctr.Key, ord), cjTag(clTag(cl, i), k, cl.E), cl.Props, false, implies(guard, cond), pos)
+		}
 	}
 	// modifies targets may name results (fresh objects); they are resolved in the pre-state
 	modEnv := &Env{g: g, vars: postEnv.vars, heapState: pre, pkg: preEnv.pkg, lookup: preEnv.lookup}
@@ -600,7 +645,9 @@ func (g *Gen) ret(r *ssa.Return) {
 		if cl.Kind != "ensures" || !cl.visible(g.prop) {
 			continue
 		}
-		g.oblige("post", detail, clTag(cl, i), cl.Props, false, g.transBool(cl.E, env), r.Pos())
+		for k, cj := range conjuncts(cl.E) {
+			g.oblige("post", detail, cjTag(clTag(cl, i), k, cl.E), cl.Props, false, g.transBool(cj, env), r.Pos())
+		}
 	}
 	g.frameObligations(r, detail)
 }
@@ -1003,3 +1050,29 @@ func (g *Gen) resolveLocalAt(name string, b *ssa.BasicBlock, limit int, e *Env) 
 
 func (g *Gen) afterStore(v *ssa.Store, lv lvalue) {}
 func (g *Gen) afterMapUpdate(v *ssa.MapUpdate)     {}
+
+// conjuncts splits a clause at its top-level && so that each conjunct becomes
+// an obligation of its own (finer names, finer known findings).
+func conjuncts(e *Expr) []*Expr {
+	if e.Op == "bin" && e.Name == "&&" {
+		return append(conjuncts(e.Args[0]), conjuncts(e.Args[1])...)
+	}
+	if e.Op == "bin" && e.Name == "==>" {
+		rhs := conjuncts(e.Args[1])
+		if len(rhs) > 1 {
+			var out []*Expr
+			for _, r := range rhs {
+				out = append(out, &Expr{Op: "bin", Name: "==>", Args: []*Expr{e.Args[0], r}, Pos: e.Pos})
+			}
+			return out
+		}
+	}
+	return []*Expr{e}
+}
+
+func cjTag(tag string, k int, whole *Expr) string {
+	if len(conjuncts(whole)) > 1 {
+		return fmt.Sprintf("%s.%d", tag, k+1)
+	}
+	return tag
+}
